@@ -3,6 +3,7 @@ package c16
 import (
 	"context"
 	"fmt"
+	"io"
 	"path/filepath"
 	"sort"
 	"strings"
@@ -36,6 +37,7 @@ type outcome struct {
 	ImportError string
 	Validator   string   // error of IsValidBlockFromLocalFS on the imported files ("" = passed)
 	Oracle      []string // clauses of the statement the imported block breaks (independent recomputation)
+	OracleError string   // why the imported files could not be read back (Oracle = ["unreadable"])
 }
 
 func errs(err error) string {
@@ -57,7 +59,9 @@ func errs(err error) string {
 
 // serve imports the block at height h stored under srcroot (the "sync source")
 // through the real BlockImporter into dstroot. m overrides the served map.
-func serve(rig *blkrig.Rig, srcroot, dstroot string, h base.Height, m base.BlockMap) (stored bool, _ error) {
+func serve(
+	rig *blkrig.Rig, srcroot, dstroot string, h base.Height, m base.BlockMap, skip map[base.BlockItemType]bool,
+) (stored bool, _ error) {
 	src := rig.Readers(srcroot)
 
 	if m == nil {
@@ -90,6 +94,11 @@ func serve(rig *blkrig.Rig, srcroot, dstroot string, h base.Height, m base.Block
 	var ierr error
 
 	m.Items(func(item base.BlockMapItem) bool {
+		if skip[item.Type()] {
+			// the source never delivers this item
+			return true
+		}
+
 		switch _, found, err := src.Item(h, item.Type(), func(ir isaac.BlockItemReader) error {
 			return im.WriteItem(ir.Type(), ir)
 		}); {
@@ -120,6 +129,63 @@ func serve(rig *blkrig.Rig, srcroot, dstroot string, h base.Height, m base.Block
 	}
 
 	return true, nil
+}
+
+// serveViaImportBlocks imports the one block through the real ImportBlocks;
+// the item function of the source returns nil for the skipped items without
+// ever calling the reader callback (notfound: it reports them as not found).
+func serveViaImportBlocks(
+	rig *blkrig.Rig, srcroot, dstroot string, h base.Height, skip map[base.BlockItemType]bool, notfound bool,
+) (stored bool, _ error) {
+	src := rig.Readers(srcroot)
+	dst := rig.Readers(dstroot)
+
+	mst := leveldbstorage.NewMemStorage()
+	defer mst.Close()
+
+	err := isaacblock.ImportBlocks(
+		context.Background(),
+		h, h,
+		1,
+		dst,
+		func(_ context.Context, height base.Height) (base.BlockMap, bool, error) {
+			switch m, found, err := isaac.BlockItemReadersDecode[base.BlockMap](src.Item, height, base.BlockItemMap, nil); {
+			case err != nil, !found:
+				return nil, found, err
+			default:
+				return m, true, m.IsValid(rig.NetworkID)
+			}
+		},
+		func(_ context.Context, height base.Height, item base.BlockItemType, f func(io.Reader, bool, string) error) error {
+			if skip[item] {
+				if notfound {
+					return f(nil, false, "")
+				}
+
+				return nil
+			}
+
+			switch _, found, err := src.Item(height, item, func(ir isaac.BlockItemReader) error {
+				return f(ir.Reader(), true, ir.Reader().Format)
+			}); {
+			case err != nil:
+				return err
+			case !found:
+				return f(nil, false, "")
+			default:
+				return nil
+			}
+		},
+		func(m base.BlockMap) (isaac.BlockImporter, error) {
+			bwdb := isaacdatabase.NewLeveldbBlockWrite(m.Manifest().Height(), mst, rig.Encs, rig.Enc)
+
+			return isaacblock.NewBlockImporter(dstroot, rig.Encs, m, bwdb, func(context.Context) error { return nil }, rig.NetworkID)
+		},
+		nil,
+		nil,
+	)
+
+	return err == nil, err
 }
 
 func treeKeys(tr fixedtree.Tree) (keys []string, instate map[string]bool) {
@@ -496,7 +562,7 @@ func variants(rig *blkrig.Rig) []variant {
 func TestC16(t *testing.T) {
 	r := vlib.Start(t, "C16", vlib.LevelExploration)
 	defer r.Finish()
-	r.SetRule("case = one block served item by item to the real isaacblock.BlockImporter (NewBlockImporter, WriteItem per item of the served map, Save, deferred merge); honest = block written by the real Writer+LocalFSWriter; tampered = the same block with one item (pair) replaced, written again through LocalFSWriter so that checksums are recomputed and the map (same manifest) is re-signed by the serving node; degenerate variants with whole items (states, operations, trees) stripped from the re-signed map; controls: stale checksum (honest map, tampered files), voteproofs of another height; a served map must pass BlockMap.IsValid first, as the importer's callers demand; when stored, the imported files are judged by isaacblock.IsValidBlockFromLocalFS and by an independent recomputation of the statement's clauses; distinct = (kind, world, height, #ops, #states); non-trivial = every case")
+	r.SetRule("case = one block served item by item to the real isaacblock.BlockImporter (NewBlockImporter, WriteItem per item of the served map, Save, deferred merge); honest = block written by the real Writer+LocalFSWriter; tampered = the same block with one item (pair) replaced, written again through LocalFSWriter so that checksums are recomputed and the map (same manifest) is re-signed by the serving node; degenerate variants with whole items (states, operations, trees) stripped from the re-signed map; sources that never deliver one / two / all items of the honest map (WriteItem never called for them before Save; and through the real ImportBlocks with an item function that returns nil, or reports not found, for them); controls: stale checksum (honest map, tampered files), voteproofs of another height; a served map must pass BlockMap.IsValid first, as the importer's callers demand; when stored, the imported files are judged by isaacblock.IsValidBlockFromLocalFS and by an independent recomputation of the statement's clauses; distinct = (kind, world, height, #ops, #states); non-trivial = every case")
 	r.Assume("stored = BlockImporter.Save and its deferred merge returned nil (block write database on memory storage, merge callback a no-op)")
 	r.Assume("independent oracle: operations item = the in-state nodes of a valid operations tree whose root is manifest.OperationsTree (not-in-state nodes need no stored operation, as the real Writer does not store them); states item = exactly the keys of a valid states tree whose root is manifest.StatesTree, all at the manifest height; proposal fact hash = manifest.Proposal; both voteproofs at the manifest height and at one and the same point (height and round; the manifest itself carries no round, and the round of the proposal is not compared, since voteproofs of a suffrage majority for this very block at another round cannot exist without that majority signing them); ACCEPT majority's new block = manifest.Hash")
 
@@ -571,7 +637,13 @@ func TestC16(t *testing.T) {
 		r.Count("real_blocks_written", nblocks)
 
 		n := 0
+		var runWith func(c icase, h base.Height, f func(dst string) (bool, error))
+
 		run := func(c icase, src string, h base.Height, m base.BlockMap) {
+			runWith(c, h, func(dst string) (bool, error) { return serve(rig, src, dst, h, m, nil) })
+		}
+
+		runWith = func(c icase, h base.Height, servef func(dst string) (bool, error)) {
 			n++
 			dst := filepath.Join(wdir, fmt.Sprintf("dst-%d", n))
 
@@ -579,7 +651,7 @@ func TestC16(t *testing.T) {
 
 			ok := r.WithWatchdog(2*time.Minute, "import", func() {
 				r.Guard("BlockImporter:"+c.Kind, c, func() {
-					stored, err := serve(rig, src, dst, h, m)
+					stored, err := servef(dst)
 					o.Stored = stored
 					o.ImportError = errs(err)
 
@@ -592,7 +664,8 @@ func TestC16(t *testing.T) {
 
 					switch ib, err := rig.Load(dr, h); {
 					case err != nil:
-						o.Oracle = []string{"unreadable:" + errs(err)}
+						o.Oracle = []string{"unreadable"}
+					o.OracleError = errs(err)
 					default:
 						o.Oracle = oracle(ib)
 					}
@@ -643,6 +716,74 @@ func TestC16(t *testing.T) {
 				c := base0
 				c.Kind, c.Broken = d.kind, d.broken
 				run(c, srcroot, b.Height, nm)
+			}
+
+			// the source never delivers some items of the (honest) map
+			{
+				var all []base.BlockItemType
+
+				b.Map.Items(func(item base.BlockMapItem) bool {
+					all = append(all, item.Type())
+
+					return true
+				})
+
+				sort.Slice(all, func(i, j int) bool { return all[i] < all[j] })
+
+				sets := [][]base.BlockItemType{}
+				for _, it := range all {
+					sets = append(sets, []base.BlockItemType{it})
+				}
+
+				sets = append(sets,
+					[]base.BlockItemType{base.BlockItemStates, base.BlockItemStatesTree},
+					[]base.BlockItemType{base.BlockItemProposal, base.BlockItemVoteproofs},
+					[]base.BlockItemType{all[rng.Intn(len(all))], all[rng.Intn(len(all))]},
+					all,
+				)
+
+				for _, set := range sets {
+					skip := map[base.BlockItemType]bool{}
+					var names []string
+
+					for _, it := range set {
+						if !skip[it] {
+							names = append(names, string(it))
+						}
+
+						skip[it] = true
+					}
+
+					name := strings.Join(names, "+")
+					if len(skip) == len(all) {
+						name = "all"
+					}
+
+					c := base0
+					c.Broken = "the source never delivers " + strings.Join(names, ", ") + " although the served (honest) map lists them"
+
+					c.Kind = "item-not-delivered:" + name + ":importer"
+					runWith(c, b.Height, func(dst string) (bool, error) { return serve(rig, srcroot, dst, b.Height, nil, skip) })
+
+					c.Kind = "item-not-delivered:" + name + ":importblocks"
+					runWith(c, b.Height, func(dst string) (bool, error) {
+						return serveViaImportBlocks(rig, srcroot, dst, b.Height, skip, false)
+					})
+
+					if len(skip) == 1 {
+						c.Kind = "item-reported-not-found:" + name + ":importblocks"
+						runWith(c, b.Height, func(dst string) (bool, error) {
+							return serveViaImportBlocks(rig, srcroot, dst, b.Height, skip, true)
+						})
+					}
+				}
+
+				// control: everything delivered through ImportBlocks
+				hc := base0
+				hc.Kind, hc.Honest = "honest:importblocks", true
+				runWith(hc, b.Height, func(dst string) (bool, error) {
+					return serveViaImportBlocks(rig, srcroot, dst, b.Height, nil, false)
+				})
 			}
 
 			for vi, v := range variants(rig) {
